@@ -596,26 +596,27 @@ def _py2t(pt):
 
 def vnode_term(N, n, real):
     """One vnode.  Function / gate / interrupt nodes are described from the VDL; a GraphNode's interface (inputs, outputs,
-    signature defaults, types) is read from the real wrapper (its derivation is the subject of C05/C06/C08)."""
+    signature defaults, and the type LISTS get_input_types / get_output_types that the validator consumes) is read from the real
+    wrapper (name sets: C05/C06/C08; the type lists themselves are derived from the inner structure in BoundaryTypes.v)."""
     kind = n["kind"]
     if kind == "graph":
         ins = list(real.inputs)
         outs = list(real.outputs)
         dfl = {p: real.get_signature_default_for(p) for p in ins if real.has_signature_default_for(p)}
-        in_ty = {p: _py2t(real.get_input_type(p)) for p in ins}
-        out_ty = {o: _py2t(real.get_output_type(o)) for o in outs}
+        in_ty = {p: [_py2t(t) for t in real.get_input_types(p)] for p in ins}      # one entry per inner consumer
+        out_ty = {o: [_py2t(t) for t in real.get_output_types(o)] for o in outs}   # one entry per inner producer
         k = f"(VKGraph {c_bool(bool(n.get('map_over')))} {c_bool(bool(real.graph.has_interrupts))})"
         wait, tg = [], []
     else:
         ins, outs = list(n["inputs"]), list(n["outputs"]) + list(n.get("emit", []))
         dfl = dict(n.get("defaults", {}))
-        in_ty = dict(n["in_ty"])
-        out_ty = dict(n["out_ty"]) if all(o in n["out_ty"] for o in n["outputs"]) else {}
+        in_ty = {k_: [v_] for k_, v_ in n["in_ty"].items() if v_ is not None}
+        out_ty = {k_: [v_] for k_, v_ in n["out_ty"].items() if v_ is not None} if all(o in n["out_ty"] for o in n["outputs"]) else {}
         k = {"func": "VKFunc", "ifelse": "VKIfElse", "interrupt": "VKInterrupt"}.get(kind) or f"(VKRoute {c_bool(n.get('multi', False))})"
         wait = list(n.get("wait_for", []))
         tg = [t for t in n.get("targets", []) if t != "END"]
     P = lambda xs: c_list([c_pos(N(x)) for x in xs])  # noqa: E731
-    tyd = lambda d: c_list([c_pair(c_pos(N(a)), coq_ty(N, t)) for a, t in d.items() if t is not None])  # noqa: E731
+    tyd = lambda d: c_list([c_pair(c_pos(N(a)), c_list([c_opt(t, lambda x: coq_ty(N, x)) for t in ts])) for a, ts in d.items()])  # noqa: E731
     return (f"(mk_vnode {c_pos(N(n['name']))} {k} {P(ins)} {P(outs)} {P(wait)} {P(tg)} {pdl.c_dictval(N, dfl)} false {tyd(in_ty)} {tyd(out_ty)})")
 
 
